@@ -80,6 +80,11 @@ func runC10(c *Ctx) error {
 		if manyJoins {
 			nc = 3 + c.Intn(3)
 		}
+		// an expired candidate (not the last one of the list) registers again in this block
+		reRegister := !manyJoins && c.Chance(1, 4)
+		if reRegister && nc < 2 {
+			nc = 2 + c.Intn(3)
+		}
 		var cands []c17party
 		var candStart, candDeadline []int
 		var cvs []base.SuffrageCandidateStateValue
@@ -93,6 +98,12 @@ func runC10(c *Ctx) error {
 			}
 			if manyJoins && dl < height {
 				dl = height + 1
+			}
+			if reRegister && j == 0 {
+				dl = height - 1
+				if st > dl {
+					st = dl
+				}
 			}
 			candStart = append(candStart, st)
 			candDeadline = append(candDeadline, dl)
@@ -226,6 +237,13 @@ func runC10(c *Ctx) error {
 				}
 				ops = append(ops, c10op{fmt.Sprintf("p:%d", np.MaxOperationsInProposal()), op})
 			}
+		}
+		if reRegister {
+			who := cands[0]
+			op := isaacoperation.NewSuffrageCandidate(isaacoperation.NewSuffrageCandidateFact(util.UUID().Bytes(), who.addr, who.priv.Publickey()))
+			_ = op.NodeSign(who.priv, hNetworkID, who.addr)
+			at := c.Intn(len(ops) + 1)
+			ops = append(ops[:at], append([]c10op{{fmt.Sprintf("c:%d", who.id), op}}, ops[at:]...)...)
 		}
 		if len(ops) == 0 {
 			continue
@@ -361,9 +379,30 @@ func runC10(c *Ctx) error {
 			}
 			return fmt.Sprintf("manifest=%s ops=%s states=%s suffrage=%s", hs(m.Hash()), hs(m.OperationsTree()), hs(m.StatesTree()), hs(m.Suffrage())), suf, nil
 		}
+		// the states the block is built on belong to the database: processing must leave them as they are
+		priorOf := func() string {
+			var out []string
+			for _, st := range []base.State{suffragest, candidatest, policyst} {
+				if st == nil {
+					continue
+				}
+				b, err := env.enc.Marshal(st)
+				if err != nil {
+					b = []byte("marshal: " + err.Error())
+				}
+				out = append(out, st.Key()+"="+string(b))
+			}
+			return strings.Join(out, "\n")
+		}
+		prior := priorOf()
 		first, suf, err := run(1)
 		if err != nil {
 			return fmt.Errorf("process %v: %w", toks, err)
+		}
+		if now := priorOf(); now != prior {
+			c.Violation("C10:prior-state-mutated", fmt.Sprintf("blk %d [%s]: processing the block changed a state of the previous blocks in place: before\n%s\nafter\n%s", height, strings.Join(toks, " "), prior, now),
+				map[string]interface{}{"height": height, "ops": toks})
+			prior = now
 		}
 		if suf == "error" {
 			c.Count("process", first)
@@ -405,6 +444,9 @@ func runC10(c *Ctx) error {
 			c.Count("kind", t[:1])
 		}
 		c.Count("suffrage", map[bool]string{true: "unchanged", false: "changed"}[suf == "-"])
+		if reRegister {
+			c.Count("directed", "expired-candidate-registers-again")
+		}
 		_ = same
 		c.Case(head+" "+strings.Join(toks, " "), suf)
 		c.Nontrivial(head + strings.Join(toks, " "))
